@@ -675,6 +675,7 @@ func writeEvidence(cfg tierCfg, sums []summary, wall float64, nViol, raceRuns, r
 			"samples":                    samples,
 			"sample_schedule_trace":      trace,
 			"runs_per_hour":              float64(runs) / wall * 3600,
+			"seeds_note":                 "every run derives its own PRNG stream from (VERIF_SEED, run index, profile), so runs_per_hour is also the number of distinct PRNG seeds explored per hour; VERIF_SEED selects the family",
 			"operations":                 ops,
 			"logical_steps":              steps,
 			"simulated_time_note":        "the library has no clock; logical time is the number of statements executed (logical_steps)",
